@@ -53,6 +53,8 @@ const (
 
 var rOpNames = []string{"connect(no ticket)", "connect(newest ticket)", "connect(oldest ticket)", "rotate(keep old)", "rotate(drop old)", "next ClientAuth policy", "connect(newest ticket, wrong master secret)", "connect(newest ticket, offering only the other suite)"}
 
+var rPreferServer bool // the units below run with and without PreferServerCipherSuites on the server
+
 func newRWorld(suite uint16) *rWorld {
 	p := tlsk.Get()
 	w := &rWorld{suite: suite, ring: []int{1}, nextKey: 2}
@@ -64,6 +66,7 @@ func newRWorld(suite uint16) *rWorld {
 		w.cfg = &gmtls.Config{GMSupport: &gmtls.GMSupport{}, Certificates: []gmtls.Certificate{p.Sign, p.Enc}, Time: tlsk.FixedTime, Rand: wire.NewRand(71),
 			CipherSuites: []uint16{gmtls.GMTLS_ECC_SM4_CBC_SM3, gmtls.GMTLS_ECC_SM4_GCM_SM3}, ClientCAs: p.Roots}
 	}
+	w.cfg.PreferServerCipherSuites = rPreferServer
 	w.setKeys()
 	return w
 }
@@ -272,6 +275,12 @@ func refClientUnits(tier string) []harness.Unit {
 	for _, s := range []uint16{gmref.SuiteCBC, gmref.SuiteGCM, gmref.SuiteAESCBC, gmref.SuiteAESGCM} {
 		for f := 0; f < rNumOps; f++ {
 			u = append(u, refClientHistUnit(s, f, depth))
+			hu := refClientHistUnit(s, f, depth-1)
+			u = append(u, harness.Unit{Name: hu.Name + "/PreferServerCipherSuites", Run: func(c *harness.Ctx) {
+				rPreferServer = true
+				defer func() { rPreferServer = false }()
+				hu.Run(c)
+			}})
 		}
 	}
 	return u
